@@ -189,7 +189,7 @@ Proof. exact coarse_clean_crash_next_build_table_irrelevant_sym. Qed.
 Print Assumptions C18_any_clock_build_after_a_killed_clean.
 
 Theorem C18_any_clock_every_history_with_kills : forall mode (t0 : N) (kops : list (kop sym)) goal,
-  (0 < t0)%N -> confined_khistory_sym (init_world mode t0) kops ->
+  confined_khistory_sym (init_world mode t0) kops ->
   build_confined sym (fold_left apply_kop_sym kops (init_world mode t0)) goal ->
   let w := fold_left apply_kop_sym kops (init_world mode t0) in
   let o1 := build_sym w RULES_PATH goal in
